@@ -88,7 +88,7 @@ class SimClock(object):
         elif b == "near-max":
             step = _dt.timedelta(seconds=r.choice([3600, -3600, 1, -1, 0]))
         else:  # huge-steps
-            step = _dt.timedelta(days=r.choice([1, 365, 36500, 365000]))
+            step = _dt.timedelta(days=r.choice([1, 365, 36500, 365000, 10 ** 6]))
         try:
             self.t = self.t + step
         except OverflowError:
